@@ -121,7 +121,7 @@ class Orders:
                         return "SORTED"
                     if f.attr in ("unique", "to_numpy", "astype", "copy", "reset_index", "loc", "dropna", "fillna",
                                   "flatten", "eq", "isin", "mul", "div", "add", "sub", "pow", "abs", "to_frame",
-                                  "get_level_values", "to_series", "tolist", "to_list", "ravel", "droplevel"):
+                                  "get_level_values", "to_series", "tolist", "to_list", "ravel", "droplevel", "drop_duplicates"):
                         return recv
                     return None
                 if recv in ("GROUPED", "SORTED", "LADDER"):
